@@ -29,13 +29,27 @@ from harness import c17_classes, ser  # noqa: E402
 
 # ------------------------------------------------------------------ building
 def from_json(j):
-    """Catalogue record (C17_Trees.tla shapes) -> object, constructors only."""
+    """Catalogue record (C17_Trees.tla shapes) -> object, constructors only.
+    Mode "shared": equal subtrees are built ONCE and the one object is used in every
+    place (u = x + y; u*u + f(u)) - the way a program names an intermediate result;
+    otherwise every occurrence is an object of its own."""
+    if _MEMO is None:
+        return _from_json(j)
+    k = json.dumps(j, sort_keys=True)
+    if k not in _MEMO:
+        _MEMO[k] = _from_json(j)
+    return _MEMO[k]
+
+
+def _from_json(j):
     t = j["t"]
     if t == "User":
         cls = c17_classes.CLASSES[j["cls"]]
         s = list(j["s"])
         c = [from_json(x) for x in j["c"]]
         n = j["cls"]
+        if n in c17_classes.MAKE:
+            return c17_classes.MAKE[n](s, c, _OMIT)
         if n == "C17Pair":
             return cls(c[0], s[0], c[1])
         if n in ("C17Tagged", "C17OldVar"):
@@ -102,15 +116,19 @@ def from_json(j):
 
 
 _NP = False
+_OMIT = False
+_MEMO = None
 
 
 def build(entry):
-    global _NP
+    global _NP, _OMIT, _MEMO
     _NP = bool(entry.get("np"))
+    _OMIT = entry.get("mode") == "omit"
+    _MEMO = {} if entry.get("mode") == "shared" else None
     try:
         e = from_json(entry["e"])
     finally:
-        _NP = False
+        _NP, _OMIT, _MEMO = False, False, None
     if entry["kind"] == "compiled":
         return CompiledExpression(e, list(entry["vars"]))
     if entry.get("src"):
@@ -146,6 +164,34 @@ def filled_slots(obj, seen=None):
             if k != "_code":
                 n += filled_slots(v, seen)
     return n
+
+
+def shared_nodes(obj):
+    """number of compound objects (nodes with fields, non-empty tuples) that are
+    reached along more than one path in the object graph"""
+    count = {}
+
+    def walk(o):
+        kids = None
+        if isinstance(o, (tuple, list)) and len(o):
+            kids = list(o)
+        elif isinstance(o, dict) or type(o).__name__ == "immutabledict":
+            kids = list(o.values())
+        elif isinstance(o, CompiledExpression):
+            kids = [o._Expression]
+        elif isinstance(o, p.Expression):
+            kids = [v for k, v in getattr(o, "__dict__", {}).items() if k != "_hash_value"]
+            if not any(isinstance(v, (p.Expression, tuple, list)) for v in kids):
+                return            # a leaf (name, number fields only)
+        if kids is None:
+            return
+        count[id(o)] = count.get(id(o), 0) + 1
+        if count[id(o)] == 1:
+            for c in kids:
+                walk(c)
+
+    walk(obj)
+    return sum(1 for v in count.values() if v > 1)
 
 
 class Worker:
@@ -185,7 +231,7 @@ class Worker:
                 self.heap.append(None)
                 o = build(self.cat[c["x"] - 1])
                 self.heap[-1] = o
-                out.update(c=self.slot(o), nc=filled_slots(o))
+                out.update(c=self.slot(o), nc=filled_slots(o), sh=shared_nodes(o))
             elif a == "Hash":
                 o = self.obj(c["x"])
                 h = hash(target(o))
@@ -206,7 +252,8 @@ class Worker:
                     self.conts[len(self.heap)] = o
                     o, = list(o)
                 self.heap[-1] = o
-                out.update(c=self.slot(o), nc=filled_slots(o), cls=type(o).__name__)
+                out.update(c=self.slot(o), nc=filled_slots(o), sh=shared_nodes(o),
+                           cls=type(o).__name__)
             elif a == "Eq":
                 o1, o2 = self.obj(c["x"]), self.obj(c["y"])
                 r = target(o1) == target(o2)
